@@ -1037,6 +1037,13 @@ mod builtins {
         if count == 0 {
             return Err(Error::new(ErrorKind::InvalidOperation, "count cannot be 0"));
         }
+        // like `range` this refuses to create more than 100.000 slices
+        if count > 100000 {
+            return Err(Error::new(
+                ErrorKind::InvalidOperation,
+                "cannot create that many slices",
+            ));
+        }
         let items = ok!(state.undefined_behavior().try_iter(value)).collect::<Vec<_>>();
         let len = items.len();
         let items_per_slice = len / count;
